@@ -1,15 +1,15 @@
 PROP = dict(
-    gen=["gsm7", "widths"],
-    proof_files=["Properties/C07.v", "Proofs/ComposeInst.v", "Proofs/ComposeProofs.v", "Proofs/SplitterProofs.v"],
-    model_files=["Model/Gsm7.v", "Model/Splitter.v", "Model/Compose.v"],
+    gen=["gsm7", "widths", "charsets"],
+    proof_files=["Properties/C07.v", "Proofs/ComposeInst.v", "Proofs/ComposeProofs.v", "Proofs/SplitterProofs.v", "Proofs/ComposeText.v", "Proofs/CharsetRoundtrip.v"],
+    model_files=["Model/Gsm7.v", "Model/Splitter.v", "Model/Compose.v", "Model/IntervalMap.v", "Model/Charset.v", "Model/ComposeText.v"],
     trusted=["Gen/Widths.v: for each of the ten codings every one of the 1,112,064 Unicode scalar values as a one-character text through "
              "DataCoding.Encoding().NewEncoder().Bytes (accepted? octets returned) and through DataCoding.Splitter() (bits charged), as maximal "
              "runs of accepted values; ConcatenatedHeader.Len()/Set() for all 65536 references (dumper: harness/gen_widths.go)",
              "rune-wise independence of the stateless x/text encoders and the three-state shape of its ISO-2022-JP encoder are assumptions of the "
              "length model (Model/Compose.v enc_len_stateless / enc_len_2022), tied by the generated cases: payload lengths of every composed part"],
-    assumptions=["payload octets of the non-GSM codings are not modelled (only their lengths): the reassembly clause is a theorem for GSM 7-bit "
-                 "(C07_gsm7_lossless, via C08) and, for the other codings, the generic C07_segments (payload i = encoder output for segment i, "
-                 "segments join to the text) plus the direct decode-and-join test on the implementation",
+    assumptions=["rune-wise independence of the stateless x/text encoders and the three-state shape of its ISO-2022-JP encoder are assumptions of the "
+                 "payload model (Model/Charset.v encode, used by compose_cs), tied by the generated cases: header entries and payload OCTETS of every composed part",
+                 "message-waiting / message-class data_coding values: the model resolves them through the regenerated dc_table / dc_closure (behaviour classes)",
                  "UTF-8 <-> rune conversion is Go's; a text is a list of scalar values"],
 )
 GEN = {"widths": "Gen/Widths.v"}
@@ -25,10 +25,13 @@ MANIFEST = dict(
          "140 octets header+payload (C07_fits), one part without header or 2..254 parts each with exactly one concatenation element decoding to "
          "(ref, N, i), 8-bit form iff ref<=255 (C07_labels), payload i = encoding of segment i and the segments join to the text (C07_segments), "
          "no part but the last could take the next character (C07_maximal), more than 254 segments are refused (C07_too_many, C07_at_most_254). "
+         "Payload level for the nine table codings (compose_cs): decoding the parts' payloads with the same coding and joining reproduces the text "
+         "(C07_cs_lossless, C07_cs_reassembles; ISO-2022-JP without ESC), no panic / no divergence (C07_cs_total); Set() data octets for every reference and "
+         "every (total, sequence) pair (C07_header_data, C07_header_total_seq); exact widths (C07_width_exact). "
          "Per coding on regenerated tables: the splitter never under-charges an accepted character (C07_width_sound: 8 codings + GSM), hence the "
          "size check never refuses (C07_no_size_refusal); false for ISO-2022-JP (C07_width_sound_iso2022jp_refuted), where the size check keeps "
          "C07_fits true. GSM 7-bit: payloads decode to the segments modulo the C08 trailing-CR rule (C07_gsm7_lossless).",
     note="Trusted: Coq kernel + vm_compute; table dumper and generators; x/text encoders (rune-wise independence; ISO-2022-JP state machine shape). "
-         "Fixed in the repo: D11, D12 (three commits). Partial: payload octets of non-GSM codings are not modelled, so their reassembly clause rests on "
-         "C07_segments + the direct decode-and-join test. No axioms.",
+         "Fixed in the repo: D11, D12 (three commits). Partial: C07_tables_agree_partial (Gen/Widths.v vs Gen/Charsets.v) is in the build for the "
+         "single-octet charsets only. No axioms.",
 )
